@@ -98,7 +98,11 @@ class Builder:
         if t == "v":
             return b["n"] if not b.get("i") else "%s_G%d" % (b["n"], b["i"])
         if t == "a":
-            return self.atom(b["n"])
+            txt = self.names(b["n"])
+            q = terms.quote_atom(txt)
+            # an atom that may be an operator has to be bracketed when it stands as an operand (ISO 6.3.1.3)
+            plain = txt in ("[]", "{}") or (txt[:1].isalpha() and txt[:1].islower() and txt.replace("_", "a").isalnum())
+            return q if plain else "(%s)" % q
         if t in ("i", "big"):
             return int_text(b)
         if t == "f":
@@ -245,9 +249,11 @@ def make_jobs(rows, names, chunk):
                 pairs.append("L%d-R%d" % (i + 1, j + 1))
             keys.append((i + 1, i + 1, "same"))
             pairs.append("L%d-L%d" % (i + 1, i + 1))
-        items = ",".join("%d-(%s)" % (k, p) for k, p in enumerate(pairs))
-        q = "findall(K-A, (%s, %s, c13m(K-(S-T), [%s]), c13(S,T,A)), Out)." % (
-            ", ".join(lb.goals), ", ".join(rb.goals), items)
+        # the reader rejects very long list literals: at most 300 items per list, lists joined by ;/2
+        its = ["%d-(%s)" % (k, p) for k, p in enumerate(pairs)]
+        alts = ["c13m(K-(S-T), [%s])" % ",".join(its[o:o + 300]) for o in range(0, len(its), 300)]
+        q = "findall(K-A, (%s, %s, (%s), c13(S,T,A)), Out)." % (
+            ", ".join(lb.goals), ", ".join(rb.goals), " ; ".join(alts))
         jid = "q%d" % c0
         jobs.append({"id": jid, "fresh": True, "timeout": 120,
                      "steps": [{"consult": ":- use_module(library(iso_ext)).\n" + HELPER}, {"q": q, "max": 2}]})
